@@ -1164,4 +1164,26 @@ theorem lastCellId_none : ∀ cs k, lastCellId k cs = none → cs = [] := by
     | nil => simp [lastCellId] at h
     | cons c' cs' => simp only [lastCellId] at h; have := ih (k + 1) h; cases this
 
+/-- a 5-vertex tree in shuffled numbering (parent index above child index: 1 → 3, 4 → 1), root 0; used by the
+    non-vacuity examples in `Props/C18.lean` -/
+theorem isTree_example : IsTree [-1, 3, 0, 0, 1] 0 :=
+  ⟨by decide, by
+    intro v x hv hne
+    match v, hv with
+    | 1, hv => simp at hv; subst hv; decide
+    | 2, hv => simp at hv; subst hv; decide
+    | 3, hv => simp at hv; subst hv; decide
+    | 4, hv => simp at hv; subst hv; decide
+    | 0, _ => exact absurd rfl hne
+    | (k + 5), hv => simp at hv,
+   ⟨fun v => match v with | 0 => 0 | 3 => 1 | 2 => 1 | 1 => 2 | _ => 3, by
+    intro v x hv hne
+    match v, hv with
+    | 1, hv => simp at hv; subst hv; decide
+    | 2, hv => simp at hv; subst hv; decide
+    | 3, hv => simp at hv; subst hv; decide
+    | 4, hv => simp at hv; subst hv; decide
+    | 0, _ => exact absurd rfl hne
+    | (k + 5), hv => simp at hv⟩⟩
+
 end NmlVerif.ArrayMorph
